@@ -15,7 +15,7 @@ import math
 import warnings
 
 from ..shim import dp, np
-from .. import gen, seams
+from .. import gen, leanio, seams
 from . import c08
 
 PROPERTY = "C06"
@@ -28,6 +28,25 @@ TRUSTED = [
     "(labels present), KMeans (non-empty clusters per iteration) and trees (occupied leaves)",
     "the Lean theorems are instances of Plan.noninterference: true by construction of the plan DSL; their force comes "
     "from the correspondence between the plans and the code (C07/C08 trace comparison) and from this experiment",
+    "static tie (harness/translate/taint.py -> DPL.Generated.C06Flows, soundness DPL.C06.static_taint_sound): the "
+    "translator is trusted to render each Python statement as IR statements whose dependency sets over-approximate the "
+    "real ones. It trusts that (i) every numpy / scipy / scikit-learn / builtin call, every library helper that draws no "
+    "noise (clip_to_bounds, check_bounds, _check_bounds, _clip_to_bounds, validate_data, _handle_zeros_in_scale, "
+    "check_random_state, _check_partial_fit_first_call, null_space, minimize, self.<method without mechanism>) and every "
+    "call of a local callable is a PURE function of its arguments (plus, for self.<method>, of the estimator's "
+    "attributes), the only receivers mutated being those of pop/append/extend/sort/fill/remove/insert/clear/update/"
+    "reverse/iternext and subscript / attribute assignment targets; (ii) the SHAPE of an object — .shape .ndim .dtype "
+    ".size, len(), np.ndim/np.size/np.shape, np.zeros_like/ones_like/empty_like, isinstance/type/hasattr/issubclass, "
+    "`is None`, the position (.finished, .multi_index, iternext) of an np.nditer — is public, that the calls listed in "
+    "taint.REG_FUNCS / REG_METHODS / NARY_FUNCS produce a shape that depends only on the shapes of their array "
+    "arguments and the values of the others, and that np.histogram(dd)'s bin edges are a function of bins, range and the "
+    "sample's shape once range is given; (iii) the allow-listed data-dependent structure: the probes `np.unique(y)` in "
+    "GaussianNB._partial_fit/_noisy_class_counts (labels present) and `cluster not in labels` in KMeans._update_centers, "
+    "`np.isnan(X)` in the scaler being all-False because partial_fit's single validate_data call admits no NaN "
+    "(re-checked on the sources), any `raise` (a refusal may depend on the data), and a path that issues "
+    "PrivacyLeakWarning (C11's declared leak) ending the analysed run; (iv) accountant calls, warn_unused_args and "
+    "_validate_params release nothing; (v) `func` in _wrap_axis is one of the tools of the same table; a call of an "
+    "entry point of the table is clean by that entry point's own obligation provided its non-data arguments are clean",
 ]
 UNPROVED = [
     "that the implementation has the plan shape is established by the two-dataset experiment and the trace "
@@ -654,6 +673,29 @@ def check_pair(ctx, case):
     if status == "ok":
         ctx.trace_ok()      # the two real parameter traces and releases were compared invocation by invocation
     return status
+
+
+def generate(ctx):
+    """static translator tie: the information-flow skeleton of every tool / estimator method of C06 that the translator
+    can follow is re-extracted from /repo's CURRENT AST and `flowsOk fn = true` is decided in Lean
+    (DPL.C06.static_taint_sound says what that means). An entry point the translator cannot follow is reported as
+    unavailable (not as a failed obligation)."""
+    import os
+    from ..translate import taint
+    repo = os.environ.get("VERIF_REPO", "/repo")
+    try:
+        info = taint.generate(repo, leanio.LEAN)
+    except (taint.TranslatorError, SyntaxError, OSError) as e:
+        ctx.note(f"taint translator unavailable: {type(e).__name__}: {e}")
+        return {"build": [], "obligations": 0, "unavailable": [f"taint: {type(e).__name__}: {e}"[:300]]}
+    ctx.count("taint_skeletons", info["obligations"])
+    ctx.count("taint_declass_sites", info["declass_sites"])
+    ctx.count("taint_probes", info["probes"])
+    ctx.sample({"taint_skeleton_entries": info["entries"], "taint_not_covered": info["not_followed"]})
+    out = {"build": ["DPL.Generated.C06Flows"], "obligations": info["obligations"]}
+    if info["unavailable"]:
+        out["unavailable"] = ["taint: " + u[:200] for u in info["unavailable"]]
+    return out
 
 
 def check(ctx):
